@@ -813,3 +813,4 @@ V("C04-revert-duplicate-calls", "C04", ["C04.R4"], [(STATEFUL, "    stateful_nod
   "    stateful_nodes: dict[str, ast.Call] = {}\n    for node in ast.walk(code):\n        if _is_stateful_transform(node, env):\n            stateful_nodes[format_expr(node)] = cast(ast.Call, node)\n\n    # Mutate stateful nodes to pass in state from a shared dictionary.\n    for name, node in stateful_nodes.items():\n")], "origin: revert 88fe04b")
 V("C18-revert-cache-reset", "C18", ["C18.R8"], [(BASE, "        self.factor_cache.clear()\n        self.encoded_cache.clear()\n        self.encoder_state_cache.clear()\n", "")], "origin: revert b35d9c5")
 V("C18-cache-reset-partial", "C18", ["C18.R8"], [(BASE, "        self.encoded_cache.clear()\n", "")])
+V("C14-revert-getstate", "C14", ["C14.R5"], [("formulaic/parser/types/operator_resolver.py", "        return {k: v for k, v in self.__dict__.items() if k != \"operator_table\"}", "        return {}")], "origin: revert 6c0704b")
